@@ -620,7 +620,7 @@ func SpecNameHash(n Name) uint64 { return SpecNameHash(n) }
 
 //@ func (Name).Hash
 //@   trusted
-//@   option no-alloc
+//@   option allocs-other
 //@   ensures result == SpecNameHash(n)
 
 //@ func (Name).Clone
@@ -630,6 +630,7 @@ func SpecNameHash(n Name) uint64 { return SpecNameHash(n) }
 
 //@ func (Name).PrefixHash
 //@   trusted
+//@   option allocs-other
 //@   ensures len(result) == len(n)+1
 
 //@ func (Component).Hash
